@@ -50,8 +50,9 @@ P = {
          "by runValidators/tryRecursiveValidate on the function's own validators, or forwards to a family member that receives those validators, or "
          "lies under a reflect-kind fact that fixes the value to a struct/Config kind; the same for Validate() via tryValidate; accessField is the only "
          "reader of the validator tag and its result is what the family receives; the value handed to the validators is the value returned (up to "
-         "pointer/interface wrappers; a default initialised after the validation is reported); every index of a list result is merged or validated. "
-         "One reasoned exception (pointer-to-map branch of reifyValue). Every accepting path of a built-in tag validator that reads the value as a "
+         "pointer/interface wrappers; a default initialised after the validation is reported); every index of a list result is merged or validated, "
+         "and every entry of a map result that the configuration does not name is validated before a successful return (R04k). "
+         "No exception is left (the pointer-to-map branch of reifyValue hands the validators on since 04c93da). Every accepting path of a built-in tag validator that reads the value as a "
          "float takes the true edge of a float comparison, so NaN is never accepted by default; every one of them decides on the kind of the "
          "value behind pointers and none recognises strings by an assertion to string; in reifyStruct every field that is not skipped reaches an "
          "unpack/validate routine, and uses the field's own validate tag, before the next iteration (an inlined map or struct included: validateStruct, the sibling that only validates, applies the tag to every field). "
